@@ -3,6 +3,7 @@ package main
 import (
 	"archive/tar"
 	"bytes"
+	"crypto/sha256"
 	"fmt"
 	"io"
 	"os"
@@ -16,7 +17,12 @@ import (
 // for a failing input; the theorems are what decides the property on the model.
 
 type hookState struct {
-	fails []OracleFail
+	prevLen  int64
+	prevHash [32]byte
+	started  bool
+	roHash   [32]byte
+	roRows   string
+	roSeen   bool
 }
 
 // oracleHook returns the per-call hook that evaluates the property oracles which need the
@@ -25,12 +31,17 @@ func oracleHook(o fsOpts, dir string) func(i int, s *h.Session, st *h.Step) {
 	if len(o.oracles) == 0 {
 		return nil
 	}
+	hs := &hookState{}
 	return func(i int, s *h.Session, st *h.Step) {
 		for _, p := range o.oracles {
 			var msgs []string
 			switch p {
 			case "C04":
 				msgs = oracleC04(s, st)
+			case "C05":
+				msgs = oracleC05(hs, s, st)
+			case "C15":
+				msgs = oracleC15(hs, s, st)
 			}
 			for _, m := range msgs {
 				st.OracleMsgs = append(st.OracleMsgs, p+"\x00"+m)
@@ -220,4 +231,110 @@ func firstTreeDiff(a, b []string) string {
 		}
 	}
 	return "order differs"
+}
+
+// ---------------------------------------------------------------------------------------
+// C05: previous bytes unchanged, whole blocks, nothing appended by a call that failed its
+// precondition, and an independent tar reader iterates archives = records + trailer.
+func oracleC05(hs *hookState, s *h.Session, st *h.Step) []string {
+	var msgs []string
+	data, err := os.ReadFile(s.E.Drive)
+	if err != nil && !os.IsNotExist(err) {
+		return []string{"read drive: " + err.Error()}
+	}
+	n := int64(len(data))
+	if !hs.started {
+		hs.started = true
+		hs.prevHash = sha256.Sum256(nil)
+	}
+	if n < hs.prevLen {
+		msgs = append(msgs, fmt.Sprintf("tape shrank from %d to %d bytes", hs.prevLen, n))
+	} else if sha256.Sum256(data[:hs.prevLen]) != hs.prevHash {
+		msgs = append(msgs, fmt.Sprintf("bytes already on the tape (first %d) were changed by %s", hs.prevLen, st.Call.Method))
+	}
+	if n%512 != 0 {
+		msgs = append(msgs, fmt.Sprintf("tape length %d is not a whole number of 512-byte blocks", n))
+	}
+	switch st.Res {
+	case "notexist", "exist", "permission", "invalid", "isdir", "isfile", "notempty":
+		if n != hs.prevLen && st.Call.Method != "hclose" && st.Call.Method != "hsync" {
+			msgs = append(msgs, fmt.Sprintf("%s failed its precondition (%s) but appended %d bytes", st.Call.Method, st.Res, n-hs.prevLen))
+		}
+	}
+	items, _, err := h.ScanTape(s.E.Drive, 0)
+	if err != nil {
+		msgs = append(msgs, "scan: "+err.Error())
+	}
+	inArchive := false
+	for _, it := range items {
+		switch {
+		case it.Trailer && it.HB == 0:
+			if !inArchive {
+				msgs = append(msgs, fmt.Sprintf("trailer at block %d does not close an archive", it.Block))
+			}
+			inArchive = false
+		case it.Trailer:
+			msgs = append(msgs, fmt.Sprintf("lone zero block at block %d", it.Block))
+		case it.HB < 0:
+			msgs = append(msgs, fmt.Sprintf("block %d is not a tar header", it.Block))
+		default:
+			inArchive = true
+		}
+	}
+	if inArchive {
+		msgs = append(msgs, "the last archive on the tape has no trailer")
+	}
+	hs.prevLen = n
+	hs.prevHash = sha256.Sum256(data)
+	if len(msgs) > 3 {
+		msgs = msgs[:3]
+	}
+	return msgs
+}
+
+// ---------------------------------------------------------------------------------------
+// C15: on a read-only instance the drive bytes and the table never change (apart from
+// Initialize building a missing index) and every mutating call answers permission.
+func oracleC15(hs *hookState, s *h.Session, st *h.Step) []string {
+	if !s.E.Cfg.ReadOnly {
+		return nil
+	}
+	var msgs []string
+	data, _ := os.ReadFile(s.E.Drive)
+	sum := sha256.Sum256(data)
+	rows := []string{}
+	for _, l := range st.Obs {
+		if strings.HasPrefix(l, "row\t") {
+			rows = append(rows, l)
+		}
+	}
+	rj := strings.Join(rows, "\n")
+	if !hs.roSeen {
+		hs.roSeen = true
+		hs.roHash = sum
+		hs.roRows = rj
+	}
+	if sum != hs.roHash {
+		msgs = append(msgs, fmt.Sprintf("%s changed the tape of a read-only instance", st.Call.Method))
+		hs.roHash = sum
+	}
+	if rj != hs.roRows {
+		if st.Call.Method == "initialize" {
+			// building a missing index on first open is allowed
+		} else {
+			msgs = append(msgs, fmt.Sprintf("%s changed the index of a read-only instance", st.Call.Method))
+		}
+		hs.roRows = rj
+	}
+	switch st.Call.Method {
+	case "mkdir", "mkdirall", "remove", "removeall", "rename", "chmod", "chown", "chtimes", "symlink", "create":
+		if st.Res != "permission" {
+			msgs = append(msgs, fmt.Sprintf("mutating call %s on a read-only instance returned %s instead of a permission error", st.Call.Method, st.Res))
+		}
+	case "hwrite":
+		if st.Res != "permission" && st.Res != "isdir" && st.Res != "badhandle" {
+			msgs = append(msgs, fmt.Sprintf("write through a handle of a read-only instance returned %s", st.Res))
+		}
+	}
+	return msgs
 }
